@@ -37,7 +37,8 @@ class Evidence:
         doc = {'property_id': self.prop, 'tier': self.tier, 'seed': self.seed, 'level': self.level,
                'coverage': self.cov, 'assumptions': self.assumptions,
                'wall_s': round(time.time() - self.t0, 2), 'violations': self.violations}
-        path = os.path.join(ROOT, 'evidence', f'{self.prop}.json')
+        # (the mutation campaign redirects its output so that committed evidence always comes from /repo itself)
+        path = os.path.join(os.environ.get('PYX_EVIDENCE_DIR') or os.path.join(ROOT, 'evidence'), f'{self.prop}.json')
         os.makedirs(os.path.dirname(path), exist_ok=True)
         tmp = path + '.tmp'
         with open(tmp, 'w') as f:
